@@ -155,11 +155,15 @@ def gen_cases(run: Run, n: int):
                 mode = "asis"
             else:
                 (ka, a), (kb, b) = named[0], named[1]
-                first = ({k: v for k, v in ins.items() if v is not b}, outs, False)
+                # (half of the time the 1st build lists everything and SUCCEEDS: the names it gave must be gone all the same)
+                first = ({k: v for k, v in ins.items() if v is not b}, outs, False) if rng.random() < 0.5 else (dict(ins), outs, rng.random() < 0.5)
                 import numpy as np
                 fresh = B.argument(B.Tensor(np.int64, (2, 3)))
                 second = {k: v for k, v in ins.items() if v is not a}
                 second[ka] = fresh
+                if rng.random() < 0.5:      # ... or ANOTHER USED argument is listed under the name `a` had
+                    second = {k: v for k, v in ins.items() if v is not a and v is not b}
+                    second[ka] = b
                 c = B.Case(second, outs, True, {"mode": mode, "legal": True})
                 c.pre = first
                 cases.append(c)
